@@ -257,7 +257,8 @@ def run_read(case):
             bs.options.lsb0 = False      # Array under lsb0 is not specified by the statement
             # Array.fromfile(f, n) / Array(dtype, bytes): whole items from the start of the source
             w = case['item']
-            dt = f'uint{w}'
+            kind = ['uint', 'bytes', 'int', 'hex', 'uint', 'bytes', 'bin', 'bits'][(total // 8 + w) % 8]
+            dt = f'bytes{w // 8}' if kind == 'bytes' and w % 8 == 0 else (f'hex{w}' if kind == 'hex' and w % 4 == 0 else (f'{kind}{w}' if kind in ('int', 'bin', 'bits') else f'uint{w}'))
             n_items = (len(exp) // w) if ln is not None else None
             p = tmp.new(b)
             if reader == 'array_fromfile':
